@@ -311,6 +311,18 @@ class Ctx:
             return
         self.goals.append((cid, 'eq', (S.lift(a), S.lift(b)), note))
 
+    def snapshot(self, **roots):
+        return snapshot(roots)
+
+    def ensure_frame(self, cid, before, after, assigns):
+        """every path of the object graph whose value changed must match a pattern in assigns"""
+        bad = frame_diff(before, after, assigns)
+        self.ensure(cid, not bad, note='written outside the frame: %s' % (bad[:4],))
+
+    def same(self, a, b):
+        """object identity (concrete in every mode)"""
+        return a is b
+
     def observe(self, oid, x):
         """record a value for the encoder cross-check (no clause)"""
         x = self.val(x)
@@ -344,26 +356,36 @@ class Ctx:
 # ------------------------------------------------------------------------------------------
 # frames
 # ------------------------------------------------------------------------------------------
-def snapshot(roots, depth=6):
+def snapshot(roots, depth=8, shapes=False):
     """object graph -> {path string: (id, summary value)} for frame checks"""
     out = {}
     seen = set()
 
     def val_key(v):
         if isinstance(v, Sym):
-            return ('sym', str(sp.expand(v.e)) if v.kind == S.FIN else v.kind)
+            if v.kind == S.FIN and v.e.is_number and not v.e.has(sp.I):
+                return ('num', float(v.e))
+            if v.kind != S.FIN:
+                return ('num', float(v))
+            return ('sym', str(sp.expand(v.e)))
         if isinstance(v, np.ndarray):
+            if v.size == 1 and not shapes:
+                return val_key(v.reshape(-1)[0])
             return ('arr', v.shape, tuple(val_key(x) for x in v.reshape(-1)[:64]))
-        if isinstance(v, (int, float, str, bool, complex, type(None))):
+        if isinstance(v, bool) or v is None or isinstance(v, str):
             return ('py', repr(v))
+        if isinstance(v, (int, float)):
+            return ('num', float(v)) if not shapes else ('py', type(v).__name__, float(v))
+        if isinstance(v, complex):
+            return ('num', v)
         if isinstance(v, np.generic):
-            return ('py', repr(v.item()))
+            return ('num', float(v.item())) if not shapes else ('npy', type(v).__name__, float(v.item()))
         return None
 
     def walk(o, path, d):
         vk = val_key(o)
         if vk is not None:
-            out[path] = (id(o) if isinstance(o, np.ndarray) else None, vk)
+            out[path] = (None, vk)
             return
         if id(o) in seen or d > depth:
             out[path] = (id(o), ('ref',))
@@ -390,15 +412,16 @@ def snapshot(roots, depth=6):
 
 def frame_diff(before, after, assigns):
     """paths whose value or identity changed and that are not covered by `assigns` (fnmatch)"""
-    import fnmatch
+    import re
+    pats = [re.compile('^' + re.escape(p).replace('\\*', '.*') + '$') for p in assigns]
     bad = []
     for k in sorted(set(before) | set(after)):
         b, a = before.get(k), after.get(k)
         if b == a:
             continue
-        if b is not None and a is not None and b[1] == a[1] and b[1][0] != 'arr':
+        if b is not None and a is not None and b[1] == a[1]:
             continue
-        if any(fnmatch.fnmatchcase(k, pat) for pat in assigns):
+        if any(p.match(k) for p in pats):
             continue
         bad.append((k, None if b is None else b[1], None if a is None else a[1]))
     return bad
